@@ -74,6 +74,18 @@ test or a result flag (`found = task in list ... return found`); link-list appen
 every path (returning a facade's backing list / the facade itself is refuted: setters would clear the list they iterate);
 remove() returning the negated membership; link operators reading the other relation; a stored dependency list in another order.
 Not followed: work handed on as a callable (`helper(query, lambda t: self.remove(t))`) ends UNDECIDED (`A.deferred_work`).
+
+Round 5: the subtree search may be ITERATIVE (`_worklist_walk`: `W = [cur]; while W: x = W.pop(); ...; W.extend(x.children)` with
+deque / pop(0) / `+=` / per-child append / reversed, list, tuple wrappers; a sliced or filtered push is refuted) and static;
+`setattr(x, 'children', v)` / `getattr(x, 'children')` with a literal name - or a class-level constant of the analysed class - are
+the property store / load (`events`, `_fold_getattr`); facade methods moved into a shared base class are found through the MRO and
+analysed once per documented class (`A.fn`, `A.cur_cls`, `A.class_const`); an accumulator filled by one loop is a copy of the
+loop's iterable (`classify_list`), a conditionally filled one a filtered loop (`elem_class_filtered`); `list(filter(lambda ..))`;
+method calls on local builtin containers are not relation events (`_plain_container`); insert: two-step clamp of a negative index
+(`i += len(L)` then `i = 0` / `max(i, 0)`).  New refutations: a negative index shifted but not clamped / clamped to a non-zero
+constant / clamped without the shift (insert_index); `L[i], L[j] = L[j], L[i]` on the children list (reorder).  Made UNDECIDED
+because not positive: attach only for non-members with the list edited directly (insert); mirror update through the other task's
+own list facade (dependency setters).  Left undecided: element-wise stores through a temporary in reorder; dict-based picks.
 """
 from __future__ import annotations
 
@@ -125,6 +137,33 @@ def stmt_of_target(f: Func, target: ast.AST):
     return None
 
 
+def _plain_container(f: Func, recv) -> bool:
+    """recv is a local name that is only ever bound to a builtin container built on the spot ([..], list(..), deque(..), set(..),
+    a comprehension): method calls on it (append / remove / pop ...) edit that container, never a task list facade"""
+    if not isinstance(recv, ast.Name) or recv.id in f.params:
+        return False
+    ds = flow_of(f).defs_of(recv.id)
+    if not ds:
+        return False
+    for d in ds:
+        if d.kind == 'aug':
+            continue
+        v = d.value if d.kind == 'assign' else None
+        if v is None:
+            return False
+        if isinstance(v, (ast.List, ast.ListComp, ast.Set, ast.SetComp, ast.Dict, ast.DictComp, ast.Tuple)):
+            continue
+        if isinstance(v, ast.Call) and ((isinstance(v.func, ast.Name) and v.func.id in ('list', 'deque', 'set', 'dict', 'sorted')) or
+                                        (isinstance(v.func, ast.Attribute) and v.func.attr == 'deque')):
+            continue
+        if isinstance(v, ast.Call) and isinstance(v.func, ast.Attribute) and v.func.attr == 'copy' and not v.args and \
+                isinstance(v.func.value, ast.Attribute) and v.func.value.attr in ('_list', '_Task__children', '_Task__predecessors',
+                                                                                  '_Task__successors'):
+            continue        # a copy of a raw list is a plain list
+        return False
+    return True
+
+
 def events(A, f: Func) -> List[Ev]:
     """relation events of f: raw writes to relation fields, property-setter stores of relation properties, calls of
     package functions that (transitively) write relation fields, calls of the facade's publish callback"""
@@ -154,6 +193,8 @@ def events(A, f: Func) -> List[Ev]:
             hit = False
             if ci.kind == 'ctor' and ci.name in ('_ImmutableTaskList', '_ChildrenList', '_PredecessorsList', '_SuccessorsList'):
                 continue     # a new facade object: its own `_list` field is not relation state of any task
+            if isinstance(ci.node, ast.Call) and isinstance(ci.node.func, ast.Attribute) and _plain_container(f, ci.node.func.value):
+                continue     # `work.append(x)` on a local list / deque / set: matched by method name only, no task relation
             for t in ci.targets:
                 if t is None:
                     continue
@@ -161,6 +202,25 @@ def events(A, f: Func) -> List[Ev]:
                     hit = True
             if hit:
                 out.append(Ev('call', ci.node, cfg.node_containing(ci.node), ci.name, ci=ci))
+    # `setattr(x, 'children', v)` with a literal relation property name is the property store `x.children = v`
+    from sa.types import CallInfo
+    for n in walk_no_nested(f.node):
+        if isinstance(n, ast.Expr) and isinstance(n.value, ast.Call) and isinstance(n.value.func, ast.Name) and \
+                n.value.func.id == 'setattr' and len(n.value.args) == 3 and not n.value.keywords:
+            c = n.value
+            nm = c.args[1] if isinstance(c.args[1], ast.Constant) else A.class_const(f, c.args[1])
+            if nm is None or nm.value not in REL_PROPS:
+                continue
+            prop = nm.value
+            ty = A.typer.expr_type(c.args[0], f)
+            q = f"wbs.WBS.{prop}.setter" if (prop == 'roots' or ty == 'WBS') else f"task.Task.{prop}.setter"
+            if ty not in (None, 'Task', 'WBS') or not A.prog.has_func(q):
+                continue
+            tgt = ast.copy_location(ast.Attribute(value=c.args[0], attr=prop, ctx=ast.Store()), c)
+            st = ast.copy_location(ast.Assign(targets=[tgt], value=c.args[2]), n)
+            ast.fix_missing_locations(st)
+            ci = CallInfo(tgt, [A.prog.func(q)], 'setter', True, ty or 'Task', prop)
+            out.append(Ev('setter', tgt, cfg.node_of(n) or cfg.node_containing(c), prop, ci=ci, stmt=st))
     return out
 
 
@@ -402,6 +462,11 @@ def norm_list(e: ast.AST):
     if isinstance(e, ast.Call):
         fn = e.func
         if isinstance(fn, ast.Name) and fn.id == 'list' and len(e.args) == 1 and not e.keywords:
+            fl_ = e.args[0]
+            if isinstance(fl_, ast.Call) and isinstance(fl_.func, ast.Name) and fl_.func.id == 'filter' and len(fl_.args) == 2 and \
+                    isinstance(fl_.args[0], ast.Lambda) and len(fl_.args[0].args.args) == 1:
+                # list(filter(lambda v: C, X))  ==  [v for v in X if C]
+                return ('filter', fl_.args[1], fl_.args[0].args.args[0].arg, [fl_.args[0].body])
             inner = norm_list(e.args[0])
             if inner[0] in ('filter', 'concat', 'lit'):
                 return inner
@@ -540,41 +605,64 @@ SEARCH_DEFAULT = 'wbs.WBS.__remove'
 
 
 def _find_search(a):
-    """the recursive search behind WBS.remove and which of its parameters is the searched task / the visited task:
+    """the search behind WBS.remove and which of its parameters is the searched task / the visited task:
     (function, task parameter, visited parameter).  Normally the private method WBS.__remove(task, current); a refactoring may
-    have moved it (module level, other name, other parameter order): then it is the self-recursive function WBS.remove calls
-    with its own argument and the sentinel root"""
+    have moved it (module level, static, other name, other parameter order, iterative instead of recursive): it is the
+    relation-changing function WBS.remove calls with its own argument and the sentinel root"""
     prog = a.prog
+    if prog.has_func('wbs.WBS.remove'):
+        f = prog.func('wbs.WBS.remove')
+        for ci in a.cg.calls_in(f):
+            if ci.kind != 'call' or not isinstance(ci.node, ast.Call):
+                continue
+            tg = [t for t in ci.targets if t is not None]
+            if len(tg) != 1 or (tg[0].qual in ALLM and tg[0].qual != SEARCH_DEFAULT) or tg[0].module.name not in ('wbs', 'task'):
+                continue
+            g = tg[0]
+            if g.qual != SEARCH_DEFAULT and not any(g in x.targets for x in a.cg.calls_in(g)) and \
+                    not any(fld in REL_FIELDS for fld, _ in a.eff.writes_star(g)):
+                continue
+            ps = g.params[1:] if g.kind in ('method', 'getter', 'setter') else list(g.params)
+            args = facts.bound_args(ci.node, g)
+            if len(ps) != 2 or len(args) != 2 or any(x is None for x in args):
+                continue
+            tp = cur = None
+            for prm, arg in zip(ps, args):
+                x = Expander(prog, f, a.typer).expand(arg, cfg_of(f).node_containing(arg))
+                if isinstance(x, ast.Name) and len(f.params) > 1 and x.id == f.params[1]:
+                    tp = prm
+                elif isinstance(x, ast.Attribute) and x.attr == ROOT and isinstance(x.value, ast.Name) and x.value.id == f.self_name:
+                    cur = prm
+            if tp and cur:
+                return g, tp, cur
     if prog.has_func(SEARCH_DEFAULT):
         g = prog.func(SEARCH_DEFAULT)
-        if len(g.params) == 3:
-            return g, g.params[1], g.params[2]
-    if not prog.has_func('wbs.WBS.remove'):
-        return None
-    f = prog.func('wbs.WBS.remove')
-    for ci in a.cg.calls_in(f):
-        if ci.kind != 'call' or not isinstance(ci.node, ast.Call):
-            continue
-        tg = [t for t in ci.targets if t is not None]
-        if len(tg) != 1 or tg[0].qual in ALLM or tg[0].module.name not in ('wbs', 'task'):
-            continue
-        g = tg[0]
-        if not any(g in x.targets for x in a.cg.calls_in(g)):
-            continue
         ps = g.params[1:] if g.kind in ('method', 'getter', 'setter') else list(g.params)
-        args = facts.bound_args(ci.node, g)
-        if len(ps) != 2 or len(args) != 2 or any(x is None for x in args):
-            continue
-        tp = cur = None
-        for prm, arg in zip(ps, args):
-            x = Expander(prog, f, a.typer).expand(arg, cfg_of(f).node_containing(arg))
-            if isinstance(x, ast.Name) and len(f.params) > 1 and x.id == f.params[1]:
-                tp = prm
-            elif isinstance(x, ast.Attribute) and x.attr == ROOT and isinstance(x.value, ast.Name) and x.value.id == f.self_name:
-                cur = prm
-        if tp and cur:
-            return g, tp, cur
+        if len(ps) == 2:
+            return g, ps[0], ps[1]
     return None
+
+
+class _GetattrFold(ast.NodeTransformer):
+    def __init__(self, a=None, f=None):
+        self.a, self.f = a, f
+
+    def visit_Call(self, n):
+        n = self.generic_visit(n)
+        if isinstance(n.func, ast.Name) and n.func.id == 'getattr' and len(n.args) == 2 and not n.keywords:
+            nm = n.args[1] if isinstance(n.args[1], ast.Constant) else (
+                self.a.class_const(self.f, n.args[1]) if self.a is not None else None)
+            if nm is not None and isinstance(nm.value, str) and nm.value.isidentifier():
+                return ast.copy_location(ast.Attribute(value=n.args[0], attr=nm.value, ctx=ast.Load()), n)
+        return n
+
+
+def _fold_getattr(e, a=None, f=None):
+    """`getattr(x, 'name')` with a literal name (or a class-level constant of the analysed class) reads `x.name`"""
+    if e is None or not any(isinstance(n, ast.Call) and isinstance(n.func, ast.Name) and n.func.id == 'getattr' for n in ast.walk(e)):
+        return e
+    import copy
+    return _GetattrFold(a, f).visit(copy.deepcopy(e))
 
 
 class A:
@@ -588,6 +676,7 @@ class A:
         self.eff = Effects(ctx.prog, ctx.typer, ctx.cg)
         self._x = {}
         self._ev = {}
+        self.cur_cls = {}           # qual of an inherited facade method -> concrete class it is currently analysed for
         self.owner_attr = {}
         self.uniq_ok = False
         ALLM[:] = MUTATORS_TASK + MUTATORS_FACADE + MUTATORS_WBS
@@ -613,16 +702,46 @@ class A:
             at0 = at if at is not None else flow_of(f).node_of_expr(e)
             d = deref(f, e, at0)
             if d is not e:
-                return self.X(f).expand(d, at0)
-        return self.X(f).expand(e, at)
+                return _fold_getattr(self.X(f).expand(d, at0), self, f)
+        return _fold_getattr(self.X(f).expand(e, at), self, f)
 
     def events(self, f):
-        if f.qual not in self._ev:
-            self._ev[f.qual] = events(self, f)
-        return self._ev[f.qual]
+        k = (f.qual, self.cur_cls.get(f.qual))
+        if k not in self._ev:
+            self._ev[k] = events(self, f)
+        return self._ev[k]
 
     def fn(self, q):
+        """anchor by qualified name; a facade method that a refactoring moved into a shared base class is found through the
+        MRO of the documented class and analysed FOR that class (class-level constants such as `_link_property` are read from it)"""
+        if self.prog.has_func(q) or q.count('.') != 2:
+            return self.prog.func(q)
+        mod, cls, name = q.split('.')
+        if cls in self.prog.classes and not name.endswith('.setter'):
+            m = self.prog.find_method(cls, name)
+            if m is not None and m.cls != cls:
+                self.cur_cls[m.qual] = cls
+                self._x.pop(m.qual, None)
+                return m
         return self.prog.func(q)
+
+    def class_const(self, f, e):
+        """value of `self.NAME` / `Cls.NAME` when NAME is a constant assigned in the body of the class f is analysed for (or of
+        one of its bases): the ast.Constant, else None"""
+        if not (isinstance(e, ast.Attribute) and isinstance(e.value, ast.Name) and (e.value.id == f.self_name or e.value.id in self.prog.classes)):
+            return None
+        cls = self.cur_cls.get(f.qual) or f.cls
+        if e.value.id in self.prog.classes and e.value.id != f.self_name:
+            cls = e.value.id
+        if cls is None:
+            return None
+        for ci in self.prog.mro(cls):
+            for st in ci.node.body:
+                tg = st.targets if isinstance(st, ast.Assign) else [st.target] if isinstance(st, ast.AnnAssign) else []
+                if any(isinstance(t, ast.Name) and t.id == e.attr for t in tg):
+                    v = st.value
+                    return v if isinstance(v, ast.Constant) and v.value is not None else None
+        return None
 
     # ------------------------------------------------------------ small recognisers
     def is_self(self, f, e):
@@ -633,7 +752,7 @@ class A:
 
     def is_owner(self, f, e):
         """`self.<owner field>` inside a facade class"""
-        oa = self.owner_attr.get(f.cls)
+        oa = self.owner_attr.get(self.cur_cls.get(f.qual) or f.cls) or self.owner_attr.get(f.cls)
         if oa is None:
             raise AnalysisError(f"owner field of facade class {f.cls} is unknown (constructor shape not recognised by C16.wiring)")
         return self.is_self_attr(f, e, oa)
@@ -690,8 +809,20 @@ class A:
         elif d:
             o.undecided(f, node, construct, msg + f" - but the function passes `{src(d[0])[:60]}` on as a callable; what the callee does "
                                                   f"with it is not followed")
+        elif self.dynamic_stores(f):
+            o.undecided(f, node, construct, msg + f" - but the function stores an attribute by name (`{src(self.dynamic_stores(f)[0])[:70]}`), "
+                                                  f"which this rule cannot tie to a relation property")
         else:
             o.refute(f, node, construct, msg)
+
+    def dynamic_stores(self, f):
+        """setattr(obj, name, value) / obj.__setattr__(name, value) calls of f"""
+        out = []
+        for n in walk_no_nested(f.node):
+            if isinstance(n, ast.Call) and ((isinstance(n.func, ast.Name) and n.func.id == 'setattr' and len(n.args) == 3) or
+                                            (isinstance(n.func, ast.Attribute) and n.func.attr == '__setattr__' and len(n.args) == 2)):
+                out.append(n)
+        return out
 
     def deferred_work(self, f):
         """callables that f hands to somebody else (a lambda / nested def containing calls, or a bound method of the package passed
@@ -766,6 +897,7 @@ def wiring(a: A, ctx):
             sup = [c for c in facts.calls_named(init, '__init__') if len(c.args) == 1 and a.is_param(init, c.args[0], 2)]
             if len(own) == 1 and sup:
                 a.owner_attr[cls] = own[0][1].attr
+                a.owner_attr.setdefault(init.cls, own[0][1].attr)       # constructor inherited from a shared base class
                 o.site(init, own[0][0], f"owner kept in {unmangle(own[0][1].attr)}, list handed to the base class")
             else:
                 o.undecided(init, init.node, f'{cls}.__init__', "constructor does not store its first argument as the owner "
@@ -877,7 +1009,7 @@ def _membership_atom(a: A, f, atom, task_param: str, owner_rel=None):
 def _check_remove_shape(a: A, o, f, owner_prop, live_ok: bool):
     """shared by _ChildrenList.remove and the link lists' remove:  owner.<prop> = [x for x in <list> if x != task],
     only when the task is a member (otherwise False and nothing happens), True afterwards"""
-    what = f"{f.cls}.remove"
+    what = f"{a.cur_cls.get(f.qual) or f.cls}.remove"
     t = f.params[1]
     ev = _single_store(a, o, f, owner_prop, what)
     if ev is None:
@@ -1330,6 +1462,110 @@ def delegation_operators(a: A, ctx):
     ctx.guarded(o, run)
 
 
+def _worklist_walk(a: A, f, cur):
+    """iterative form of the subtree search:
+            W = [cur]                          (list literal / deque / list(..) holding only the start task)
+            while W:                            (W | len(W) | len(W) > 0 | W != [])
+                X = W.pop() | W.pop(0) | W.popleft()
+                ...
+                W.extend(<X.children>) | W += <X.children> | for ch in <X.children>: W.append(ch)
+       where <X.children> may be wrapped in list() / reversed() / tuple() / an unfiltered comprehension / [::-1].
+    Every task below `cur` is then visited exactly once (a task has one parent), in some order.
+    ('ok', X, W) | ('refute', node, message) | None (not this idiom)"""
+    loops = [n for n in walk_no_nested(f.node) if isinstance(n, ast.While)]
+    if len(loops) != 1 or loops[0].orelse:
+        return None
+    wl = loops[0]
+    t = wl.test
+    m = match("len($w) > 0", t) or match("len($w)", t) or match("$w != []", t) or match("len($w) != 0", t) or match("0 < len($w)", t)
+    wname = m['w'] if m else t
+    if not isinstance(wname, ast.Name):
+        return None
+    W = wname.id
+    ds = [d for d in flow_of(f).defs_of(W) if d.kind != 'aug']
+    if len(ds) != 1 or ds[0].kind != 'assign' or ds[0].value is None:
+        return None
+    if any(d.kind == 'aug' and not any(d.stmt is st for st in wl.body) for d in flow_of(f).defs_of(W)):
+        return None         # `W += ..` somewhere else than directly in the loop body
+    init = ds[0].value
+    mi = match("deque($x)", init) or match("list($x)", init) or match("collections.deque($x)", init)
+    if mi:
+        init = mi['x']
+    if not (isinstance(init, (ast.List, ast.Tuple)) and len(init.elts) == 1 and isinstance(init.elts[0], ast.Name) and init.elts[0].id == cur):
+        return None
+    if any(d.kind != 'param' for d in flow_of(f).defs_of(cur)):
+        return None
+    if not wl.body:
+        return None
+    first = wl.body[0]
+    X = None
+    if isinstance(first, ast.Assign) and len(first.targets) == 1 and isinstance(first.targets[0], ast.Name):
+        v = first.value
+        if isinstance(v, ast.Call) and isinstance(v.func, ast.Attribute) and isinstance(v.func.value, ast.Name) and v.func.value.id == W \
+                and ((v.func.attr == 'pop' and (not v.args or (len(v.args) == 1 and facts.const_num(v.args[0]) in (0, -1)))) or
+                     (v.func.attr == 'popleft' and not v.args)):
+            X = first.targets[0].id
+    if X is None or len(flow_of(f).defs_of(X)) != 1:
+        return None
+
+    def children_of_x(e):
+        """strip order / copy wrappers; -> True, False, or ('refute', msg)"""
+        for _ in range(6):
+            mm = match("reversed($x)", e) or match("list($x)", e) or match("tuple($x)", e)
+            if mm:
+                e = mm['x']
+                continue
+            if isinstance(e, ast.Subscript) and isinstance(e.slice, ast.Slice):
+                if e.slice.lower is None and e.slice.upper is None:
+                    e = e.value
+                    continue
+                return ('refute', f"only the slice `{src(e)}` of the children is searched")
+            if isinstance(e, (ast.ListComp, ast.GeneratorExp)) and len(e.generators) == 1 and isinstance(e.generators[0].target, ast.Name) \
+                    and isinstance(e.elt, ast.Name) and e.elt.id == e.generators[0].target.id:
+                if e.generators[0].ifs:
+                    return ('refute', f"some children are not searched (`{src(e.generators[0].ifs[0])}`)")
+                e = e.generators[0].iter
+                continue
+            break
+        if isinstance(e, ast.Attribute) and isinstance(e.value, ast.Name) and e.value.id == X and \
+                e.attr in ('all_parents', 'parent', 'predecessors', 'successors', 'all_predecessors', 'all_successors'):
+            return ('refute', f"the walk continues with `{src(e)}` instead of the children of the visited task")
+        return isinstance(e, ast.Attribute) and e.attr in ('children', '_Task__children') and isinstance(e.value, ast.Name) and e.value.id == X
+
+    pushes = 0
+    for st in wl.body[1:]:
+        for n in ast.walk(st):
+            # any other use of the worklist inside the loop
+            if isinstance(n, ast.Name) and n.id == W:
+                pass
+        push_src = None
+        if isinstance(st, ast.Expr) and isinstance(st.value, ast.Call) and isinstance(st.value.func, ast.Attribute) and \
+                isinstance(st.value.func.value, ast.Name) and st.value.func.value.id == W:
+            c = st.value
+            if c.func.attr in ('extend', 'extendleft') and len(c.args) == 1:
+                push_src = c.args[0]
+            else:
+                return None
+        elif isinstance(st, ast.AugAssign) and isinstance(st.target, ast.Name) and st.target.id == W and isinstance(st.op, ast.Add):
+            push_src = st.value
+        elif isinstance(st, ast.For) and isinstance(st.target, ast.Name) and len(st.body) == 1 and not st.orelse and \
+                isinstance(st.body[0], ast.Expr) and (match(f"{W}.append({st.target.id})", st.body[0].value) or
+                                                       match(f"{W}.appendleft({st.target.id})", st.body[0].value)):
+            push_src = st.iter
+        elif any(isinstance(n, ast.Name) and n.id == W for n in ast.walk(st)):
+            return None         # the worklist is used in a way the idiom does not cover (conditional push, reassignment ...)
+        if push_src is not None:
+            r = children_of_x(push_src)
+            if isinstance(r, tuple):
+                return ('refute', st, r[1])
+            if not r:
+                return None
+            pushes += 1
+    if pushes != 1:
+        return None
+    return ('ok', X, W)
+
+
 def _trampoline(a: A, f):
     """f does nothing to relations itself but calls ONE private method g of its own class with its own two parameters, and g
     is self-recursive (the real worker):  (call event, g, arguments swapped?)  or None"""
@@ -1391,7 +1627,8 @@ def delegation_wbs(a: A, ctx):
         f = a.fn('wbs.WBS.remove')
         what = 'WBS.remove'
         if a.search is None:
-            a.fn(SEARCH_DEFAULT)       # AnchorMissing: the search function cannot be identified
+            a.fn(SEARCH_DEFAULT)       # AnchorMissing when the method is gone
+            raise AnalysisError("the search function behind WBS.remove cannot be identified")
         search, tp, cur = a.search
         sname = unmangle(search.name) if search.cls else search.name
         calls = [e for e in a.events(f) if e.kind == 'call' and search in e.ci.targets]
@@ -1448,16 +1685,30 @@ def delegation_wbs(a: A, ctx):
                   and any(t.qual == 'task._ChildrenList.remove' for t in e.ci.targets)]
         rec = [e for e in a.events(f) if e.kind == 'call' and f in e.ci.targets]
         ok = True
+        walk = _worklist_walk(a, f, cur) if not rec else None
+        visited, wl_name = cur, None
+        if walk is not None and walk[0] == 'refute':
+            o.refute(f, walk[1], walk[1], f"{what}: {walk[2]}")
+            a.leftovers(o, f, what)
+            return
+        if walk is not None:
+            visited, wl_name = walk[1], walk[2]       # the task popped from the worklist is the visited one
+        elif not rec and any(isinstance(n, ast.While) for n in walk_no_nested(f.node)):
+            o.undecided(f, f.node, 'recursion', f"{what}: no recursive call, and the loop of the function is not a worklist walk over "
+                                                f"the subtree that the rule recognises")
+            for e in a.events(f):
+                e.used = True
+            return
         if not direct:
             a.absent(o, f, f.node, what, f"{what}: never calls children.remove on the visited task")
             ok = False
         for e in direct:
             e.used = True
             c = e.node
-            recv = a.xp(f, c.func.value, e.cn)
+            recv = a.xp(f, c.func.value, e.cn) if walk is None else c.func.value
             if not (isinstance(recv, ast.Attribute) and recv.attr == 'children' and isinstance(recv.value, ast.Name)
-                    and recv.value.id == cur):
-                o.refute(f, c, c, f"{what}: removes from `{src(recv)}` instead of the children of the visited task `{cur}`")
+                    and recv.value.id == visited):
+                o.refute(f, c, c, f"{what}: removes from `{src(recv)}` instead of the children of the visited task `{visited}`")
                 ok = False
             elif not (len(c.args) == 1 and isinstance(a.xp(f, c.args[0], e.cn), ast.Name) and a.xp(f, c.args[0], e.cn).id == tp):
                 o.refute(f, c, c, f"{what}: removes `{src(c.args[0]) if c.args else ''}` instead of the searched task")
@@ -1468,10 +1719,17 @@ def delegation_wbs(a: A, ctx):
                         continue
                     if match(f"{tp} is not None", atom) and pol:
                         continue
+                    if wl_name is not None and pol and (match(wl_name, atom) or match(f"len({wl_name}) > 0", atom) or
+                                                        match(f"len({wl_name})", atom) or match(f"{wl_name} != []", atom)):
+                        continue        # the loop test of the worklist walk
                     o.undecided(f, c, atom, f"{what}: removal depends on a condition the rule does not know")
                     ok = False
-        if not rec:
-            a.absent(o, f, f.node, 'recursion', f"{what}: does not descend into the children: only root tasks can be removed")
+        if not rec and walk is None:
+            if any(isinstance(n, (ast.While, ast.For)) for n in walk_no_nested(f.node)):
+                o.undecided(f, f.node, 'recursion', f"{what}: no recursive call, and the loop(s) of the function are not a walk over the "
+                                                    f"subtree the rule recognises")
+            else:
+                a.absent(o, f, f.node, 'recursion', f"{what}: does not descend into the children: only root tasks can be removed")
             ok = False
         for e in rec:
             e.used = True
@@ -1510,7 +1768,8 @@ def delegation_wbs(a: A, ctx):
                         o.refute(f, r, r, f"{what}: returns True without a successful removal")
                         ok = False
         if ok and a.leftovers(o, f, what) == 0:
-            o.site(f, direct[0].node, f"{src(direct[0].node)}; recursion over {cur}.children")
+            o.site(f, direct[0].node, f"{src(direct[0].node)}; " + (f"recursion over {cur}.children" if walk is None else
+                                                                   f"worklist walk from {cur} over {visited}.children"))
         else:
             a.leftovers(o, f, what)
     ctx.guarded(o, run)
@@ -1697,7 +1956,24 @@ def is_arg(a: A, f, e, at, i=1, depth=0):
 def classify_list(a: A, f, e, at, i=1):
     """('arg',) | ('arg-reordered', how) | ('live', field, at) | ('copy', field, at) | ('other', expr)
     of a list expression evaluated at cfg node `at` in a Task method"""
+    name0 = e.id if isinstance(e, ast.Name) else None
     e, at, _ = resolve(f, e, at)
+    if name0 is None and isinstance(e, ast.Name):
+        name0 = e.id
+    if isinstance(e, ast.Name):
+        name0 = e.id
+    if name0 is not None and ((isinstance(e, ast.List) and not e.elts) or match("list()", e) or isinstance(e, ast.Name)):
+        # `acc = []; for v in X: acc.append(v)` (nothing skipped): a copy of X taken when the loop runs
+        cs = [c for c in facts.collects(f) if c.kind == 'loop' and c.acc == name0]
+        if len(cs) == 1 and facts.accumulated_list(f, name0) is not None and not cs[0].conds and \
+                isinstance(cs[0].elt, ast.Name) and isinstance(cs[0].target, ast.Name) and cs[0].elt.id == cs[0].target.id:
+            hn = cfg_of(f).node_of(cs[0].node)
+            if hn is not None:
+                inner = classify_list(a, f, cs[0].iter, hn, i)
+                if inner[0] == 'live':
+                    return ('copy', inner[1], hn)
+                if inner[0] in ('copy', 'arg', 'arg-reordered'):
+                    return inner
     if is_arg(a, f, e, at, i):
         return ('arg',)
     if isinstance(e, ast.Call) and isinstance(e.func, ast.Name) and e.func.id in ORDER_BREAKERS and e.args and \
@@ -1735,6 +2011,14 @@ def elem_class_filtered(a: A, f, recv, cn, i=1):
     if k is None or k[0] != 'other' or fo is None:
         return k, fo, []
     t = norm_list(k[1])
+    if isinstance(fo.iter, ast.Name):
+        # `acc = []; for v in L: if C(v): acc.append(v)` ... `for x in acc:`  ==  a loop over [v for v in L if C(v)]
+        acc = facts.accumulated_list(f, fo.iter.id)
+        ta = norm_list(acc) if acc is not None else None
+        if ta is not None and ta[0] == 'concat' and len(ta[1]) == 2 and ta[1][0][0] == 'lit' and not ta[1][0][1] and ta[1][1][0] == 'filter':
+            t = ta[1][1]
+        elif ta is not None and ta[0] == 'filter':
+            t = ta
     if t[0] == 'filter' and t[3] and t[2]:
         hn = cfg_of(f).node_of(fo)
         at = resolve(f, fo.iter, hn)[1]
@@ -2113,6 +2397,19 @@ def dependency_setters(a: A, ctx):
             if bad:
                 a.leftovers(o, f, what)
                 continue
+            # the mirror side may also be updated through the OTHER task's own list (`v.predecessors.append(self)`): a documented
+            # primitive whose effect on the mirror this clause does not follow
+            via_facade = [e for e in evs if not e.used and e.kind in ('setter', 'call') and
+                          e.name in (MIRROR_PROP[rel], 'append', 'remove') and _recv_base(e) is not None and
+                          elem_class(a, f, _recv_base(e), e.cn)[0] is not None]
+            if (not rem_ok or not add_ok) and via_facade:
+                o.undecided(f, via_facade[0].node, via_facade[0].node,
+                            f"{what}: the mirror side is updated through `{src(via_facade[0].node)[:60]}` (the other task's own "
+                            f"{MIRROR_PROP[rel]} list), which this rule does not follow")
+                for e in via_facade:
+                    e.used = True
+                a.leftovers(o, f, what)
+                continue
             if not rem_ok:
                 a.absent(o, f, f.node, 'unlink', f"{what}: self is never removed from the {unmangle(MIR)} of the old elements: dropped "
                                               f"links survive on the mirror side")
@@ -2150,6 +2447,19 @@ def _fresh_returns(fn) -> bool:
         if not fresh(v):
             return False
     return True
+
+
+MIRROR_PROP = {'predecessors': 'successors', 'successors': 'predecessors'}
+
+
+def _recv_base(e):
+    """the plain name an event's receiver chain starts from (`v` in `v.predecessors.append(self)` / `v.predecessors = ..`)"""
+    n = e.node
+    if isinstance(n, ast.Call):
+        n = n.func
+    while isinstance(n, ast.Attribute):
+        n = n.value
+    return n if isinstance(n, ast.Name) else None
 
 
 def _builds_new_list(fn) -> bool:
@@ -3256,6 +3566,19 @@ def _first_match(a: A, f, e, at, idvar):
     return 'ok', g.iter
 
 
+def _is_swap(a: A, f, st) -> bool:
+    """`L[i], L[j] = L[j], L[i]` on the facade's list (also through a temporary is NOT covered)"""
+    if not (isinstance(st, ast.Assign) and len(st.targets) == 1 and isinstance(st.targets[0], ast.Tuple) and
+            isinstance(st.value, ast.Tuple) and len(st.targets[0].elts) == 2 and len(st.value.elts) == 2):
+        return False
+    t0, t1 = st.targets[0].elts
+    v0, v1 = st.value.elts
+    if not all(isinstance(x, ast.Subscript) and not isinstance(x.slice, ast.Slice) and a.is_self_attr(f, x.value, LIST)
+               for x in (t0, t1, v0, v1)):
+        return False
+    return same(t0.slice, v1.slice) and same(t1.slice, v0.slice) and not same(t0.slice, t1.slice)
+
+
 @part
 def reorder_effect(a: A, ctx):
     o = ctx.ob('reorder', 'R8',
@@ -3277,6 +3600,11 @@ def reorder_effect(a: A, ctx):
             e.used = True
             if (e.w.kind == 'store' and isinstance(e.w.node, ast.Assign)) or _full_slice_store(a, f, e.w):
                 stores.append(e)
+            elif _is_swap(a, f, e.w.node):
+                o.refute(f, e.node, e.node, f"{what}: `{src(e.node)[:90]}` SWAPS two elements of the list: the task that stood at the target "
+                                            f"position jumps to the old slot of the listed one, so the tasks that are not listed do not "
+                                            f"keep their relative order (documented: listed ids first, the rest in their old order)")
+                return
             elif e.w.kind.startswith('mutate:'):
                 o.refute(f, e.node, e.node, f"{what}: `{src(e.node)[:70]}` edits the LIVE children list (shared with the task) while the new "
                                             f"order is still being computed; picks and rest must be taken from a copy and the result "
@@ -3555,6 +3883,23 @@ def _copy_minus_task(a: A, f, name, T):
     return None if unknown else 'ok'
 
 
+def _is_clamp(f, d, IDX, shift) -> bool:
+    """definition d is the second step of a two-step normalisation: `if IDX < 0: IDX = 0` or `IDX = max(IDX, 0)`, executed after
+    the shift definition"""
+    cfg = cfg_of(f)
+    if d.kind != 'assign' or d.value is None or d.node is None or shift.node is None:
+        return False
+    if not (cfg.can_reach(shift.node, d.node) and not cfg.can_reach(d.node, shift.node)):
+        return False
+    if match(f"max({IDX}, 0)", d.value) or match(f"max(0, {IDX})", d.value):
+        return True
+    if facts.const_num(d.value) == 0:
+        conds = [(strip_not(t0, p0)) for t0, p0, _ in _raw_atoms(f, d.node)]
+        return bool(conds) and all((match(f"{IDX} < 0", t0) and p0) or (match(f"{IDX} >= 0", t0) and not p0) or
+                                   (match(f"0 > {IDX}", t0) and p0) for t0, p0 in conds)
+    return False
+
+
 def _neg_index_form(e, IDX, L):
     """`max(len(L) + IDX, 0) if IDX < 0 else IDX`  (list.insert's treatment of negative indexes, as one expression)"""
     if not isinstance(e, ast.IfExp):
@@ -3607,8 +3952,14 @@ def insert_index(a: A, ctx):
             if not (len(c.args) == 1 and a.is_param(f, c.args[0], 2)):
                 o.refute(f, c, c, f"{what}: appends `{src(c)}` instead of the inserted task")
                 return
-        if path_atoms(a, f, at_ev.cn):
-            o.refute(f, at_ev.node, at_ev.node, f"{what}: the task is attached only conditionally")
+        cond = path_atoms(a, f, at_ev.cn)
+        if cond:
+            if all(_membership_atom(a, f, at0, T) is not None for at0, _, _ in cond):
+                # attach only for non-members + the list edited directly: may well produce the documented list, in another way
+                o.undecided(f, at_ev.node, at_ev.node, f"{what}: the task is attached only when it is not a member yet; the position is "
+                                                       f"produced in a way this rule does not follow")
+            else:
+                o.refute(f, at_ev.node, at_ev.node, f"{what}: the task is attached only conditionally")
             return
         if not a.must_pass(o, f, [at_ev], [], what):
             return
@@ -3720,6 +4071,9 @@ def insert_index(a: A, ctx):
             o.undecided(f, c, an, f"{what}: anchor is not an element of the list")
             return
         plain_idx = isinstance(i_expr, ast.Name) and i_expr.id == IDX
+        clamp_outer = bool(match(f"max({IDX}, 0)", i_expr) or match(f"max(0, {IDX})", i_expr))
+        if clamp_outer:
+            plain_idx = True        # `if i < 0: i = len(L) + i` ... `i = max(i, 0)`: the clamp is a separate, unconditional step
         if not plain_idx and not _neg_index_form(i_expr, IDX, L_len):
             o.undecided(f, c, an.test, f"{what}: the bound test is not about `{IDX}`")
             return
@@ -3764,6 +4118,7 @@ def insert_index(a: A, ctx):
             return
         o.site(f, c, f"anchor = {src(an)[:80]}")
         # ---- negative index normalisation, when present: like list.insert
+        saw_shift = False
         for d in (flow_of(f).defs_of(IDX) if plain_idx else []):
             if d.kind == 'param':
                 continue
@@ -3773,10 +4128,43 @@ def insert_index(a: A, ctx):
             conds = [(t0, p0) for t0, p0, _ in _raw_atoms(f, d.node)] if d.node is not None else []
             neg = any((match(f"{IDX} < 0", t0) and p0) or (match(f"{IDX} >= 0", t0) and not p0) or (match(f"0 > {IDX}", t0) and p0)
                       for t0, p0 in conds)
+            unclamped = None
+            if d.kind == 'aug' and isinstance(d.stmt, ast.AugAssign) and isinstance(d.stmt.op, ast.Add):
+                unclamped = match("len($l)", d.stmt.value)
+            elif d.kind == 'assign' and d.value is not None:
+                unclamped = match(f"len($l) + {IDX}", d.value) or match(f"{IDX} + len($l)", d.value)
+            others_ = [d2 for d2 in flow_of(f).defs_of(IDX) if d2.kind != 'param' and d2 is not d]
+            if clamp_outer and d.kind == 'assign' and d.value is not None and (match(f"max({IDX}, 0)", d.value) or
+                                                                                match(f"max(0, {IDX})", d.value)):
+                continue        # the clamp step (already part of the anchor expression)
+            wrong_const = [d2 for d2 in [d] + others_ if d2.kind == 'assign' and d2.value is not None and d2.node is not None and
+                           facts.const_num(d2.value) not in (None, 0) and
+                           any((match(f"{IDX} < 0", t0) and p0) or (match(f"{IDX} >= 0", t0) and not p0)
+                               for t0, p0, _ in _raw_atoms(f, d2.node))]
+            if wrong_const and len(others_) == 1:
+                d2 = wrong_const[0]
+                o.refute(f, d2.stmt, d2.stmt, f"{what}: an index below -len(list) is clamped to {src(d2.value)} instead of 0 (`{src(d2.stmt)}`)")
+                return
+            if unclamped and neg and same(a.X(f).expand(unclamped['l'], d.node), L):
+                saw_shift = True
+            if unclamped and neg and same(a.X(f).expand(unclamped['l'], d.node), L) and len(others_) == 1 and \
+                    _is_clamp(f, others_[0], IDX, d):
+                continue        # `if i < 0: i += len(L)` followed by `if i < 0: i = 0`: list.insert's clamp in two steps
+            if d.kind == 'assign' and len(others_) == 1 and _is_clamp(f, d, IDX, others_[0]):
+                continue        # the clamp step itself
+            if unclamped and neg and same(a.X(f).expand(unclamped['l'], d.node), L) and not others_:
+                o.refute(f, d.stmt, d.stmt, f"{what}: a negative `{IDX}` is shifted by len(list) but not clamped at 0 (`{src(d.stmt)}`): for "
+                                            f"{IDX} < -len(list) the anchor is taken from the END of the list (negative subscript) instead "
+                                            f"of the first element; list.insert semantics need `max(len(list) + {IDX}, 0)`")
+                return
             if not okn or not neg or not same(a.X(f).expand(okn['l'], d.node), L):
                 o.undecided(f, d.stmt, d.stmt, f"{what}: `{IDX}` is rewritten in a way the rule does not know "
                                                f"(expected: `if {IDX} < 0: {IDX} = max(len(list) + {IDX}, 0)`)")
                 return
+        if clamp_outer and not saw_shift:
+            o.refute(f, c, i_expr, f"{what}: a negative `{IDX}` is clamped to 0 without being counted from the end of the list first "
+                                   f"(`{src(i_expr)}`): insert(-1, t) puts the task first instead of before the last element")
+            return
         # ---- after the attach, the move (or its `anchor is not None` test) is always met
         ga = guard_anchor(cfg, m_ev.cn, at_ev.cn)
         if _reaches_exit_avoiding(cfg, at_ev.cn, {ga.id}):
@@ -3923,10 +4311,21 @@ def frame(a: A, ctx):
                     if e.kind == 'call' and e.ci.targets and all(t is not None and t.kind in ('static', 'function', 'classmethod')
                                                                  for t in e.ci.targets):
                         recv = None     # `Cls.helper(x)` / `helper(x)`: the name before the dot is not a task being changed
+                    if recv is not None and a.search is not None and f is a.search[0]:
+                        wk = _worklist_walk(a, f, a.search[2])
+                        base = recv
+                        while isinstance(base, ast.Attribute):
+                            base = base.value
+                        if wk is not None and wk[0] == 'ok' and isinstance(base, ast.Name) and base.id == wk[1]:
+                            recv = None     # a task popped from the worklist: a member of the subtree of the `current` argument
                     if recv is not None:
                         root = a.eff.root_of(recv, f)
-                        if not (root == 'self' or root.startswith('param:') or
-                                (root.startswith('mixed:') and 'unknown' not in root)):
+                        if root.startswith('mixed:') and 'unknown' in root and 'param:' in root:
+                            o.undecided(f, e.node, e.node, f"{f.name} applies `{src(e.node)[:60]}` to `{src(recv)}`, whose origin is "
+                                                           f"only partly an argument (root: {root})")
+                            ok = False
+                        elif not (root == 'self' or root.startswith('param:') or
+                                  (root.startswith('mixed:') and 'unknown' not in root)):
                             o.refute(f, e.node, e.node, f"{f.name} applies `{src(e.node)[:60]}` to `{src(recv)}`, an object that is neither "
                                                         f"self / its owner nor an argument (root: {root})")
                             ok = False
